@@ -633,7 +633,9 @@ def polygon_predicates(case):
     area = 0.5 * case['sides'] * case['radius'] ** 2 * math.sin(2 * math.pi / case['sides'])
     perim = 2 * case['sides'] * case['radius'] * math.sin(math.pi / case['sides'])
     dx = float(x[0, 1] - x[0, 0])
-    if abs(float(m.sum()) * dx * dx - area) > perim * dx:
+    inside_grid = (abs(c[0]) + case['radius'] < float(x[0, -1]) and abs(c[1]) + case['radius'] < float(y[-1, 0])
+                   and abs(c[0]) + case['radius'] < -float(x[0, 0]) and abs(c[1]) + case['radius'] < -float(y[0, 0]))
+    if inside_grid and abs(float(m.sum()) * dx * dx - area) > perim * dx:
         bad.append('polygon area differs from the analytic area by more than perimeter*dx')
     if c == (0.0, 0.0):
         # vertices at (sin, cos)(k*angle + rot): mirror x -> -x is a symmetry when rot is a multiple of half the vertex angle
